@@ -23,7 +23,7 @@ BI = 1  # bucket interval used by the driver (SamplePostprocessor passes 1 by de
 class S:
     """Same attribute surface as driver.Sample as far as ThroughputCalculator reads it."""
 
-    def __init__(self, t, ops, st, period, gid, throughput=None):
+    def __init__(self, t, ops, st, period, gid, throughput=None, unit="docs"):
         self.absolute_time = t
         self.relative_time = t
         self.total_ops = ops
@@ -31,7 +31,7 @@ class S:
         self.task = TASK
         self.throughput = throughput
         self.time_period = period
-        self.total_ops_unit = "docs"
+        self.total_ops_unit = unit
         self.client_id = 0
         self.gid = gid
 
@@ -42,8 +42,30 @@ def _samples(prefix, n, start):
         t = fresh_real("%st%d" % (prefix, i))
         ops = fresh_int("%sops%d" % (prefix, i), 0)
         st = fresh_int("%stype%d" % (prefix, i), 0, 1)
-        out.append(S(t, ops, st, 0, "%s%d" % (prefix, i)))
+        # a task's samples may carry different units: a rejected request under on-error=continue is recorded as 1 "ops"
+        out.append(S(t, ops, st, 0, "%s%d" % (prefix, i), unit="ops" if (i + len(prefix)) % 2 == 0 else "docs"))
     return out
+
+
+def _state(task, stype, start):
+    """a TaskStats as the code itself creates it on the first sample of a task (first request rejected: unit "ops"); the
+    harness then overwrites the fields of the representation invariant. Not calling the constructor keeps the harness
+    independent of its signature."""
+    tc = driver.ThroughputCalculator()
+    first = S(0.0, 0, 0, 0, "first", unit="ops")
+    first.task = task
+    tc.calculate([first], bucket_interval_secs=BI)
+    st = tc.task_stats[task]
+    st.sample_type = stype
+    st.start_time = start
+    return tc, st
+
+
+def _unit_of(t_abs, samples):
+    for x in samples:
+        if x.absolute_time is t_abs:
+            return "%s/s" % x.total_ops_unit
+    return None
 
 
 def carry_step(sl):
@@ -61,14 +83,12 @@ def carry_step(sl):
             # carried samples were seen: no later than start+interval, and their type did not exceed the state's
             core.assume(s_and(s.absolute_time - start <= interval, s.sample_type <= stype))
         batch = _samples("b", nb, start)
-        tc = driver.ThroughputCalculator()
-        st = driver.ThroughputCalculator.TaskStats(bucket_interval=BI, sample_type=stype, start_time=start)
+        tc, st = _state(TASK, stype, start)
         st.unprocessed = list(carried)
         st.total_count = total
         st.interval = interval
         st.bucket = bucket
         st.has_samples_in_sample_type = has
-        tc.task_stats[TASK] = st
         seen = total
         for s in carried + batch:
             seen = seen + s.total_ops
@@ -80,12 +100,12 @@ def carry_step(sl):
         core.trace("total_after", got)
         core.note("tuples", [(core.jsonable(t[0]) if not core.is_sym(t[0]) else "<sym>", t[3] if not core.is_sym(t[3]) else "<sym>") for t in tuples])
         core.note("total_count/unprocessed after", (st.total_count if not core.is_sym(st.total_count) else "<sym>", len(st.unprocessed)))
-        observe("conservation: total_count + ops(unprocessed) == everything seen", got == seen)
         everything = carried + batch
+        observe("conservation: total_count + ops(unprocessed) == everything seen", got == seen)
         prev_type = stype
         for k, tp in enumerate(tuples):
             t_abs, _, t_type, value, unit = tp
-            observe("tuple %d unit" % k, unit == "docs/s")
+            observe("tuple %d unit is '<ops unit>/s' of the sample it is reported for" % k, unit == _unit_of(t_abs, everything))
             observe("tuple %d value >= 0" % k, value >= 0)
             observe("tuple %d sample type does not regress" % k, t_type >= prev_type)
             prev_type = t_type
@@ -187,11 +207,9 @@ def other_task_frame(sl):
         stype = fresh_int("stype", 0, 1)
         core.assume(interval < bucket)
         carried = _samples("u", nu, start)
-        tc = driver.ThroughputCalculator()
-        st = driver.ThroughputCalculator.TaskStats(bucket_interval=BI, sample_type=stype, start_time=start)
+        tc, st = _state(TASK, stype, start)
         st.unprocessed = list(carried)
         st.total_count, st.interval, st.bucket, st.has_samples_in_sample_type = total, interval, bucket, has
-        tc.task_stats[TASK] = st
         batch = _samples("b", nb, start)
         for s in batch:
             s.task = TASK_B
